@@ -198,7 +198,7 @@ theorem mem_keys_filter (d : List Pct) (k : Nat) :
   · intro h
     exact List.mem_map.mpr ⟨some k, List.mem_filter.mpr ⟨h, rfl⟩, rfl⟩
 
-/-- With F24 the whole path — decode every node's document, aggregate from a fresh aggregate — never
+/-- With F53 the whole path — decode every node's document, aggregate from a fresh aggregate — never
 faults; the aggregate has no nil map, one entry per distinct "quantile" that some node reported in a
 non-null entry, and nothing else. -/
 theorem aggregate_fixed (docs : List (List Pct)) :
